@@ -555,6 +555,9 @@ def merge_file_level(
             value = {**old_value, **value}
 
         setattr(new, name, value)
+        # re-run the validator on the stored value,
+        # since some validators also coerce it (e.g. lists to sets/dicts)
+        validate_field(new, field, value)
 
     return new
 
